@@ -23,7 +23,7 @@ type c07Case struct {
 	Gap     int      `json:"gap,omitempty"` // 0 none; 1: a blank after every use, then a printed value; 2: a line break after every use, then a directive; 3: a use ends the file after a blank line; 4: blank, comment, line break between ")" and the first @slot
 }
 
-var c07Items = []string{"T", "PA", "PO", "IFA", "SD", "SN", "SM", "T2", "IFSD", "EACHSN", "ELSESM", "ELIFSD", "EACHELSESD", "FORELSESN"}
+var c07Items = []string{"T", "PA", "PO", "IFA", "SD", "SN", "SM", "T2", "IFSD", "EACHSN", "ELSESM", "ELIFSD", "EACHELSESD", "FORELSESN", "AVO"}
 
 func c07XNodes(items []int) (nodes []*Node, slots []string) {
 	for pos, ix := range items {
@@ -65,6 +65,11 @@ func c07XNodes(items []int) (nodes []*Node, slots []string) {
 			nodes = append(nodes, &Node{K: "for", Init: nAssign("j", eLit(vInt(0))), Cond: eBin("<", eVar("j"), eLit(vInt(0))), Post: nPrint(&Expr{Op: "inc", Kids: []*Expr{eVar("j")}}),
 				Body: []*Node{nText("no")}, HasElse: true, Else: []*Node{nText("{f"), {K: "slot", Name: "n"}, nText("}")}})
 			slots = append(slots, "n")
+		case "AVO":
+			// the component assigns: to a name of the caller (a binding of its own, gone with the use) and to o, which may be
+			// its own argument standing in front of the caller's o
+			// (w is a caller variable that no slot body reads: which scope a slot body sees is not stated)
+			nodes = append(nodes, nText("[w="), nPrint(eVar("w")), nText("]"), nAssign("w", eLit(vStr("cw"))), nAssign("o", eVar("o")), nText("[w="), nPrint(eVar("w")), nText("]"))
 		case "ELSESM":
 			nodes = append(nodes, &Node{K: "if", E: eLit(vBool(false)), Body: []*Node{nText("no")}, HasElse: true, Else: []*Node{nText("{"), {K: "slot", Name: "m"}, nText("}")}})
 			slots = append(slots, "m")
@@ -181,6 +186,9 @@ func c07Build(cs c07Case) c07Built {
 			case 4:
 				use.Gap = " {{-- c --}}\n"
 				page.Nodes = append(page.Nodes, nText("{"+tag), use, nText(tag+"}"))
+			case 6: // a CR LF line break and a tab before the first slot
+				use.Gap = "\r\n\t"
+				page.Nodes = append(page.Nodes, nText("{"+tag), use, nText(tag+"}"))
 			default:
 				page.Nodes = append(page.Nodes, nText("{"+tag), use, nText(tag+"}"))
 			}
@@ -208,7 +216,7 @@ func c07Build(cs c07Case) c07Built {
 		// page text outside inserts does not appear: the model drops it because only the layout is rendered
 	}
 	b.env = &tplEnv{files: files}
-	b.data = map[string]Val{"o": vStr("O"), "v": vStr("V"), "e": vInt(5)}
+	b.data = map[string]Val{"o": vStr("O"), "v": vStr("V"), "e": vInt(5), "w": vStr("W")}
 	if cs.Data == 1 {
 		b.data["o"] = vInt(7)
 	}
@@ -237,6 +245,20 @@ func c07Build(cs c07Case) c07Built {
 	case "undeclared-slot-after-other-component":
 		b.tree.Files["x.tw"] = `<x>@slot("n")</x>`
 		b.tree.Files["index.tw"] = `@component("~y", {a: 1})@slot d@end@end|@component("x")@slot("zz")body@end@end`
+		b.loadErr = []string{"x"}
+	case "undeclared-slot-in-unused-layout": // the faulty use sits in a layout file that no page uses
+		b.tree.Files["x.tw"] = `<x>@slot("n")</x>`
+		b.tree.Files["lonely.tw"] = `<l>@reserve("r")@component("x")@slot("zz")body@end@end</l>`
+		b.tree.Files["index.tw"] = `plain`
+		b.loadErr = []string{"x"}
+	case "missing-component-in-unused-layout":
+		b.tree.Files["lonely.tw"] = `<l>@reserve("r")@component("gone", {a: 1})</l>`
+		b.tree.Files["index.tw"] = `plain`
+		b.loadErr = []string{"gone"}
+	case "slot-twice-in-used-layout":
+		b.tree.Files["x.tw"] = `<x>@slot("n")@slot</x>`
+		b.tree.Files["lay.tw"] = `<l>@reserve("r")@component("x")@slot("n")one@end@slot("n")two@end@end</l>`
+		b.tree.Files["index.tw"] = `@use("lay")@insert("r")i@end`
 		b.loadErr = []string{"x"}
 	case "slot-twice":
 		b.tree.Files["x.tw"] = `<x>@slot("n")@slot</x>`
@@ -411,7 +433,7 @@ func c07Run(c *Ctx) {
 							}
 							// white space and comments around a use at top level (components of one item are enough)
 							if pl == 0 && k == 1 && arg < 2 {
-								for gap := 1; gap <= 5; gap++ {
+								for gap := 1; gap <= 6; gap++ {
 									if !do(c07Case{X: x, Uses: []c07Use{{comp, arg, sl, pl}}, Data: 0, Gap: gap}) {
 										return false
 									}
@@ -470,7 +492,8 @@ func c07Run(c *Ctx) {
 	}
 	if c.Mine() {
 		for _, sp := range []string{"undeclared-slot", "undeclared-default-slot", "slot-twice", "default-slot-twice", "missing-component", "missing-alias-component",
-			"undeclared-slot-second-use", "slot-twice-second-use", "undeclared-slot-after-other-component"} {
+			"undeclared-slot-second-use", "slot-twice-second-use", "undeclared-slot-after-other-component",
+			"undeclared-slot-in-unused-layout", "missing-component-in-unused-layout", "slot-twice-in-used-layout"} {
 			if !do(c07Case{X: []int{0, 4, 5}, Special: sp}) {
 				return
 			}
